@@ -277,7 +277,21 @@ func emitMsgSig(w *CaseW, buf []byte, hcap, ccap int, flags uint, offs int) sigR
 			}
 		}
 	})
-	nums := []int64{int64(hcap), int64(ccap), int64(flags), int64(offs), cidsig, cidslen, fromsig, viasig}
+	// where ContainsIP4 / ContainsIP6 place the IP address inside the Call-ID (the only part of the string
+	// signatures the model does not compute itself)
+	var has, ipo, ipl int64
+	p3 := safeCall(func() {
+		cid := m.PV.Callid.CallID.Get(m.Buf)
+		h, o, l := sipsp.ContainsIP4(cid, nil)
+		if !h {
+			h, o, l = sipsp.ContainsIP6(cid, nil)
+		}
+		has, ipo, ipl = b2i(h), int64(o), int64(l)
+	})
+	if p2 == "" {
+		p2 = p3
+	}
+	nums := []int64{int64(hcap), int64(ccap), int64(flags), int64(offs), cidsig, cidslen, fromsig, viasig, has, ipo, ipl}
 	if r.Panic != "" || p2 != "" {
 		if r.Panic == "" {
 			r.Panic = p2
@@ -295,4 +309,43 @@ func emitMsgSig(w *CaseW, buf []byte, hcap, ccap int, flags uint, offs int) sigR
 	}
 	w.emit(120, nums, [][]byte{buf}, exp)
 	return r
+}
+
+// the string signatures on their own: getStrCharsSig(s,0,0), GetViaBrSig, GetCallIDSig
+func emitStrSig(w *CaseW, s []byte) int64 {
+	var r int64
+	if p := safeCall(func() { r = int64(sipsp.VerifStrCharsSig(cp(s))) }); p != "" {
+		w.emit(121, nil, [][]byte{s}, []int64{zPANIC})
+		return -1
+	}
+	w.emit(121, nil, [][]byte{s}, []int64{r})
+	return r
+}
+func emitViaBrSig(w *CaseW, s []byte) (int64, int64, string) {
+	var sg sipsp.StrSigId
+	var l int
+	if p := safeCall(func() { sg, l = sipsp.GetViaBrSig(cp(s)) }); p != "" {
+		w.emit(122, nil, [][]byte{s}, []int64{zPANIC})
+		return 0, 0, p
+	}
+	w.emit(122, nil, [][]byte{s}, []int64{int64(sg), int64(l)})
+	return int64(sg), int64(l), ""
+}
+func emitCallIDSig(w *CaseW, s []byte) (int64, int64, string) {
+	var sg sipsp.StrSigId
+	var cl uint8
+	var h bool
+	var o, l int
+	if p := safeCall(func() {
+		h, o, l = sipsp.ContainsIP4(cp(s), nil)
+		if !h {
+			h, o, l = sipsp.ContainsIP6(cp(s), nil)
+		}
+		sg, cl = sipsp.GetCallIDSig(cp(s))
+	}); p != "" {
+		w.emit(123, []int64{b2i(h), int64(o), int64(l)}, [][]byte{s}, []int64{zPANIC})
+		return 0, 0, p
+	}
+	w.emit(123, []int64{b2i(h), int64(o), int64(l)}, [][]byte{s}, []int64{int64(sg), int64(cl)})
+	return int64(sg), int64(cl), ""
 }
